@@ -19,10 +19,12 @@ package main
 import (
 	"errors"
 	"fmt"
+	"net"
 	"sort"
 	"strconv"
 	"strings"
 	"sync"
+	"sync/atomic"
 	"time"
 
 	"github.com/Shopify/sarama"
@@ -265,6 +267,55 @@ func newConf(kv string, max int) *sarama.Config {
 	return conf
 }
 
+// trackDialer is installed as Config.Net.Proxy.Dialer: plain TCP, but every connection of a case is known to
+// the harness, is closed at the end of the case whatever the client did with it (RefreshController drops the
+// old controller's *Broker from the client's table without closing it), and is closed with RST (linger 0) so
+// that hundreds of thousands of cases do not pile up TIME_WAIT sockets.
+type trackedConn struct {
+	net.Conn
+	closed int32
+}
+
+func (c *trackedConn) Close() error {
+	atomic.StoreInt32(&c.closed, 1)
+	return c.Conn.Close()
+}
+
+type trackDialer struct {
+	mu    sync.Mutex
+	conns []*trackedConn
+}
+
+func (d *trackDialer) Dial(network, addr string) (net.Conn, error) {
+	c, err := (&net.Dialer{Timeout: 3 * time.Second}).Dial(network, addr)
+	if err != nil {
+		return nil, err
+	}
+	if tc, ok := c.(*net.TCPConn); ok {
+		_ = tc.SetLinger(0)
+	}
+	t := &trackedConn{Conn: c}
+	d.mu.Lock()
+	d.conns = append(d.conns, t)
+	d.mu.Unlock()
+	return t, nil
+}
+
+// closeAll closes what the client left open and returns how many connections that were
+func (d *trackDialer) closeAll() int {
+	d.mu.Lock()
+	defer d.mu.Unlock()
+	open := 0
+	for _, c := range d.conns {
+		if atomic.LoadInt32(&c.closed) == 0 {
+			open++
+			_ = c.Close()
+		}
+	}
+	d.conns = nil
+	return open
+}
+
 type callResult struct {
 	err      error
 	val      interface{}
@@ -277,6 +328,14 @@ type callResult struct {
 
 // withAdmin arms the cluster, creates a fresh client + admin, runs f under a timeout.
 func withAdmin(cl *sarama.VerifCluster, sc *sarama.VerifScript, conf *sarama.Config, f func(a sarama.ClusterAdmin) (interface{}, error)) callResult {
+	dialer := &trackDialer{}
+	conf.Net.Proxy.Enable = true
+	conf.Net.Proxy.Dialer = dialer
+	defer func() {
+		if n := dialer.closeAll(); n > 0 {
+			run.Count("observed:case-with-connections-left-open-after-admin-Close")
+		}
+	}()
 	cl.Arm(sc)
 	admin, err := sarama.NewClusterAdmin(cl.Addrs(), conf)
 	for try := 0; err != nil && try < 4 && err != sarama.ErrUnsupportedVersion; try++ {
